@@ -26,7 +26,7 @@ ASSUMPTIONS = [
 COMPONENTS = {'real': ['yldprolog.engine assert_fact/Answer/match_dynamic/assertz/asserta builtins, unify', 'compiled wrapper clauses'],
               'stub': ['scheduler holding the open unifications and suspended uses'],
               'oracle': ['copy-semantics model: ASSERT stores resolve(term, current substitution) with remaining variables made fact-local; every USE renames the fact apart']}
-REQUIRED_PROBES = ('fault_assert_overflow', 'fault_use_aborted', 'independent_use_stepped_while_others_suspended', 'assert_with_bound_variable', 'assert_with_unbound_variable', 'assert_bound_inside_structure', 'use_answer', 'use_while_other_use_suspended',
+REQUIRED_PROBES = ('store_prefilled_with_many_facts', 'fault_assert_overflow', 'fault_use_aborted', 'independent_use_stepped_while_others_suspended', 'assert_with_bound_variable', 'assert_with_unbound_variable', 'assert_bound_inside_structure', 'use_answer', 'use_while_other_use_suspended',
                    'use_after_binding_changed', 'nonground_fact_answered', 'route_fact', 'route_query', 'route_wrapv', 'route_inline')
 
 _WRAP = None
@@ -86,7 +86,8 @@ def gen(seed, tier):
         ops.append(['ASSERT', False, rng.choice(('fact', 'query', 'wrapv')), [['v', 0], ['v', 0]]])
         for _ in range(rng.randrange(3, 9)):
             if rng.random() < 0.5:
-                ops.append(['IUSE', rng.choice('qqqr'), [['a', rng.choice('abc')], ['v', 100]]])
+                x_ = rng.choice('abc')
+                ops.append(['IUSE', rng.choice('qqqr'), [['a', x_], ['v', 100]] if rng.random() < 0.6 else [['a', x_], ['a', x_]]])
             else:
                 ops.append(['ISTEP', rng.randrange(3)])
     for _ in range(rng.randrange(2, 22 * (2 if tier == 'thorough' else 1))):
@@ -133,7 +134,8 @@ def gen(seed, tier):
                 ops += [['FAULTUSE', 0], ['IUSE', 'q', [['deep', dk, ['a', 'a']]]], ['IUSE', 'q', [['deep', dk, ['a', 'b']]]], ['ISTEP', 0]]
         else:
             ops.append(['STEP'])
-    return {'nv': nv, 'ops': ops}
+    # size-dependent paths: p/1 and p/2 may already hold many (ground, unrelated) facts when the history starts
+    return {'nv': nv, 'ops': ops, 'prefill': rng.choice((0, 0, 0, 0, 0, 0, 33, 40, 70))}
 
 
 def show_op(op):
@@ -169,6 +171,13 @@ def execute(plan):
     pool = Pool(yp, max(1, plan['nv']))
     model = FactStore()
     meta = {}            # record id -> dict(bound_at_assert, s_at_assert)
+    for i_ in range(plan.get('prefill', 0)):
+        for ar_ in (1, 2):
+            yp.assert_fact(yp.atom('p'), [yp.atom('fill%d' % i_)] * ar_)
+            rec_ = model.add(('p', ar_), [('a', 'fill%d' % i_)] * ar_, False)
+            meta[rec_[0]] = {'bound': False, 's': {}, 'vars': []}
+    if plan.get('prefill'):
+        log.count('store_prefilled_with_many_facts')
     s = {}
     stack = []           # frames: dict(kind='unify'|'use', task, s_before, ...)
     indep = []           # independent uses (own variables only): steppable in any order
